@@ -528,6 +528,7 @@ theorem flush_body (st : State κ β) : ∀ c ∈ flush st, isBody c = true := b
 theorem flush_afterFlush (st : State κ β) (d : Bool) : flush (afterFlush st d) = [] := by
   simp [flush, afterFlush, wmElem]
 
+omit [DecidableEq κ] in
 theorem wmSafe_results (l : List (κ × β)) (g : κ × β → Option Int) (rest : List (Elem (κ × β))) :
     wmSafeGo none (l.map (fun kv => Fold.mk kv (g kv)) ++ rest) = wmSafeGo none rest := by
   induction l with
